@@ -276,6 +276,36 @@ func firstWords(s string, n int) string {
 	return strings.Join(f, " ")
 }
 
+// c09CreateEntry: one entry point of contract creation as a Lean tuple
+func (c *ctxT) c09CreateEntry(fd *ast.FuncDecl) string {
+	var stmts, calls []string
+	for _, st := range fd.Body.List {
+		stmts = append(stmts, c09flat(c.src(st)))
+	}
+	lastOk, typ, addrArg := false, "", ""
+	n := len(fd.Body.List)
+	if n > 0 {
+		if rs, ok := fd.Body.List[n-1].(*ast.ReturnStmt); ok && len(rs.Results) == 1 {
+			if ce, ok := rs.Results[0].(*ast.CallExpr); ok && c09flat(c.src(ce.Fun)) == "evm.create" && len(ce.Args) == 6 {
+				lastOk, typ, addrArg = true, c09flat(c.src(ce.Args[5])), c09flat(c.src(ce.Args[4]))
+			}
+		}
+		seen := map[string]bool{}
+		for _, st := range fd.Body.List[:n-1] {
+			ast.Inspect(st, func(x ast.Node) bool {
+				if ce, ok := x.(*ast.CallExpr); ok {
+					if se, ok := ce.Fun.(*ast.SelectorExpr); ok && c09flat(c.src(se.X)) == "evm.StateDB" && !seen[se.Sel.Name] {
+						seen[se.Sel.Name] = true
+						calls = append(calls, se.Sel.Name)
+					}
+				}
+				return true
+			})
+		}
+	}
+	return "(" + leanStr(fd.Name.Name) + ", " + leanStrs(stmts) + ", " + leanBool(lastOk) + ", " + leanStr(typ) + ", " + leanStr(addrArg) + ", " + leanStrs(calls) + ")"
+}
+
 func extractC09Dep(c *ctxT) {
 	c09NeutralStmts = nil
 	var sb strings.Builder
@@ -367,6 +397,7 @@ inductive CStep
 	sb.WriteString("def nativeActionProg : List NAStep := " + leanList(na) + "\n\n")
 
 	progs := map[string][]string{}
+	var entries []string
 	gdir := c.depDir("github.com/ethereum/go-ethereum")
 	if gdir != "" {
 		if f, err := parser.ParseFile(c.fset, filepath.Join(gdir, "core", "vm", "evm.go"), nil, 0); err == nil {
@@ -380,6 +411,10 @@ inductive CStep
 					progs[fd.Name.Name] = c.c09CallProg(fd)
 				case "create":
 					progs["Create"] = c.c09CreateProg(fd)
+				case "Create", "Create2":
+					// round 5: the two ENTRY POINTS of contract creation (opCreate / opCreate2 call them): everything but the
+					// closing `return evm.create(…)` only computes the address of the new contract
+					entries = append(entries, c.c09CreateEntry(fd))
 				}
 			}
 		}
@@ -399,6 +434,9 @@ inductive CStep
 	for _, k := range []string{"Call", "CallCode", "DelegateCall", "StaticCall", "Create"} {
 		fmt.Fprintf(&sb, "/-- go-ethereum fork core/vm/evm.go (*EVM).%s, statement by statement -/\ndef prog%s : List CStep := %s\n\n", k, k, leanList(progs[k]))
 	}
+	sb.WriteString("/-- go-ethereum fork core/vm/evm.go (*EVM).Create and (*EVM).Create2, the entry points of CREATE / CREATE2: name, statements\n(flattened source), is the LAST statement `return evm.create(<8 results passed through>)`?, the creation kind it passes, its\naddress argument, StateDB methods called by the statements before it -/\n")
+	sb.WriteString("def createEntries : List (String × List String × Bool × String × String × List String) := [\n  " + strings.Join(entries, ",\n  ") + "]\n\n")
+	c.facts["C09.dep.createEntries"] = entries
 	var fs []string
 	for _, k := range sortedKeys(facts) {
 		fs = append(fs, "("+leanStr(k)+", "+leanStr(facts[k])+")")
